@@ -184,6 +184,205 @@ def run_ftp_case(case):
     return res
 
 
+# ----------------------------------------------------------------------- (a2) two sessions
+
+TWO_PATHS = ["f", "d/g", "d", "d/e", "z", "new", "d/new", "/f", "missing"]
+TWO_LOOK = ["MLST {p}", "CWD {p}", "get:RETR {p}", "get:MLSD {p}", "get:LIST {p}", "RNFR {p}"]
+TWO_MUT = ["DELE {p}", "RMD {p}", "ren:{p}", "put:STOR {p}", "put:APPE {p}", "MKD {p}"]
+
+
+def gen_two_ops(rnd):
+    """One sequence of commands issued by two sessions A and B of the same account, one command
+    at a time (a command of B may also be handled while an upload of A is in flight).  Half of
+    it is triples 'A looks at p, B changes p, A uses p again'."""
+    ops = []
+    for _ in range(rnd.choice([2, 3, 5, 8])):
+        p = rnd.choice(TWO_PATHS)
+        if rnd.random() < 0.55:
+            a, b = rnd.sample(["A", "B"], 2)
+            ops.append([a, rnd.choice(TWO_LOOK).format(p=p)])
+            if rnd.random() < 0.3:
+                ops.append([a, rnd.choice(TWO_LOOK).format(p=p)])
+            ops.append([b, rnd.choice(TWO_MUT).format(p=p)])
+            ops.append([a, rnd.choice(TWO_LOOK + TWO_MUT).format(p=p)])
+            if rnd.random() < 0.5:
+                ops.append([b, "get:MLSD " + rnd.choice(["", "d"])])
+        elif rnd.random() < 0.5:
+            # an upload (new file, overwrite, append or from a restart offset) during which the
+            # other session asks about the file or its directory
+            who, other = rnd.sample(["A", "B"], 2)
+            o = {"mid": [other, rnd.choice(["MLST {p}", "get:MLSD", "get:LIST {p}", "get:MLSD d", "NOOP"]).format(p=p)], "len": rnd.choice([20, 40, 90])}
+            if rnd.random() < 0.5:
+                o["rest"] = rnd.choice([1, 5, 17, 40])
+            ops.append([who, rnd.choice(["put:STOR {p}", "put:APPE {p}"]).format(p=p), o])
+        else:
+            ops.append([rnd.choice("AB"), rnd.choice(TWO_LOOK + TWO_MUT + ["PWD", "CDUP"]).format(p=p)])
+    return ops
+
+
+def run_two_history(case, backend):
+    from simftp.peers import PeerGone, ReplyTimeout
+
+    rng = random.Random(case["seed"] * 7919 + 103)
+    net = scenario.random_net(rng, allow_small_pipe=False)
+    sc = {"seed": case["seed"], "net": net}
+    world = scenario.setup_world(sc)
+    scratch = None
+    obs = []
+    with world:
+        scenario.apply_net(world.net, net)
+        if backend == "memory":
+            server = aioftp.Server([aioftp.User()], path_io_factory=aioftp.MemoryPathIO, block_size=16, wait_future_timeout=5.0)
+            world.server = server
+            world.populate({k: v for k, v in c05.TREE.items() if k != "/"})
+            snap = lambda: {k: (None if v is None else bytes(v)) for k, v in world.snapshot().items()}
+        else:
+            scratch = tempfile.mkdtemp(prefix="c18_", dir=SCRATCH_ROOT)
+            world.digest_masks = [scratch]
+            fs_populate(scratch, c05.TREE)
+            factory = aioftp.PathIO if backend == "pathio" else aioftp.AsyncPathIO
+            server = aioftp.Server([aioftp.User(base_path=scratch)], path_io_factory=factory, block_size=16, wait_future_timeout=5.0)
+            world.server = server
+            r2 = world.rng("executor")
+            world.loop.executor_delay = (lambda: r2.choice([0.0, 0.0001, 0.001])) if backend == "asyncpathio" else None
+            snap = lambda: fs_snapshot(scratch)
+        peers = {"A": RawPeer(world, "A", reply_timeout=200.0), "B": RawPeer(world, "B", reply_timeout=200.0)}
+
+        async def one(who, what, o, rec):
+            peer = peers[who]
+            kind, _, line = what.partition(":") if what.split(":")[0] in ("get", "put", "ren") else ("cmd", "", what)
+            if kind == "cmd":
+                code, _lines = await peer.cmd(line)
+                rec["codes"].append(code)
+            elif kind == "ren":
+                code, _lines = await peer.cmd("RNFR " + line)
+                rec["codes"].append(code)
+                if code[0] == "3":
+                    code, _lines = await peer.cmd("RNTO " + line + ".moved")
+                    rec["codes"].append(code)
+            elif kind == "get":
+                r = await peer.download(line.strip(), passive="EPSV", connect="before")
+                rec["codes"] += [r["pre"], r["mark"], r["final"]]
+                verb = line.split()[0]
+                if r["final"] and r["final"][0] == "2":
+                    if verb in ("LIST", "MLSD"):
+                        rec["names"] = sorted(conform.listing_names(verb, r["data"]))
+                    else:
+                        rec["data"] = r["data"]
+            else:
+                pay = (b"%s:%s:" % (who.encode(), line.encode())) * 8
+                pay = pay[: o.get("len", 30)]
+                rec["codes"].append(await peer.passive("EPSV"))
+                if peer.passive_port is None:
+                    return
+                if o.get("rest") is not None:
+                    rec["codes"].append((await peer.cmd(f"REST {o['rest']}"))[0])
+                await peer.data_connect()
+                code, _lines = await peer.cmd(line)
+                rec["codes"].append(code)
+                if code[0] != "1":
+                    peer.data_close()
+                    return
+                half = len(pay) // 2
+                await peer.send_all(pay[:half], [7, 16])
+                if o.get("mid"):
+                    await asyncio.sleep(0.5)  # the server has stored what was sent so far
+                    mrec = {"codes": []}
+                    await one(o["mid"][0], o["mid"][1], {}, mrec)
+                    rec["mid_codes"] = [c[:1] if c else c for c in mrec["codes"]]
+                await peer.send_all(pay[half:], [5, 16])
+                peer.data_close()
+                code, _lines = await peer.reply()
+                rec["codes"].append(code)
+
+        async def main():
+            await server.start("127.0.0.1", 2121)
+            for p in peers.values():
+                await p.connect()
+                await p.cmd("USER anonymous")
+            for i, op in enumerate(case["ops"]):
+                who, what = op[0], op[1]
+                o = op[2] if len(op) > 2 else {}
+                rec = {"op": [who, what], "codes": [], "data": None, "names": None}
+                try:
+                    await one(who, what, o, rec)
+                except (PeerGone, ReplyTimeout, OSError) as e:
+                    rec["error"] = type(e).__name__
+                await asyncio.sleep(0.2)
+                rec["snap"] = snap()
+                obs.append(rec)
+                if rec.get("error"):
+                    break
+            for p in peers.values():
+                p.close()
+            await asyncio.sleep(1)
+            await asyncio.wait_for(server.close(), 1e4)
+
+        try:
+            world.run(main())
+        finally:
+            if scratch:
+                shutil.rmtree(scratch, ignore_errors=True)
+        if world.outcome not in ("ok", "budget", "deadlock"):
+            raise common.HarnessError(f"scenario failed on {backend}: {world.outcome}: {world.error!r}")
+        import re
+
+        mask = re.compile(r"(?i)(modify|create)=\d+")
+        tr = sorted((vt, w, k, mask.sub("T", t)) for w, p in peers.items() for (vt, k, t) in p.transcript)
+        meta = {"digest": world.digest([(w, k, t) for (_vt, w, k, t) in tr]), "vtime": world.loop.time() - 1000.0, "events": world.net.seq, "steps": world.loop.steps}
+    return obs, meta
+
+
+def run_two_case(case):
+    results, metas = {}, {}
+    for b in BACKENDS:
+        results[b], metas[b] = run_two_history(case, b)
+    viol = []
+    ref = results["memory"]
+    compared = 0
+    cls = lambda codes: [c[:1] if c else c for c in codes]
+    for b in ("pathio", "asyncpathio"):
+        other = results[b]
+        if len(other) != len(ref):
+            viol.append({"clause": "reply-class-differs", "subject": "two-sessions:ended", "detail": f"memory got through {len(ref)} steps, {b} through {len(other)}", "step": min(len(ref), len(other)) - 1})
+        for i, (x, y) in enumerate(zip(ref, other)):
+            compared += 1
+            v = "two-sessions:" + x["op"][1].split(":")[-1].split()[0].upper() if x["op"][1].split(":")[0] not in ("ren",) else "two-sessions:RENAME"
+            if cls(x["codes"]) != cls(y["codes"]) or x.get("error") != y.get("error") or x.get("mid_codes") != y.get("mid_codes"):
+                viol.append({"clause": "reply-class-differs", "subject": v, "detail": f"step {i} {x['op']} (after {[o[:2] for o in case['ops'][max(0, i - 3):i]]}): memory answered {x['codes']} {x.get('mid_codes') or ''} {x.get('error') or ''}, {b} answered {y['codes']} {y.get('mid_codes') or ''} {y.get('error') or ''}", "step": i})
+                break
+            if x["data"] != y["data"] or x["names"] != y["names"]:
+                viol.append({"clause": "transferred-data-differs", "subject": v, "detail": f"step {i} {x['op']}: memory delivered {x['data'] if x['data'] is None else len(x['data'])} bytes / names {x['names']}, {b} {y['data'] if y['data'] is None else len(y['data'])} / {y['names']}", "step": i})
+                break
+            if x["snap"] != y["snap"]:
+                a, c = x["snap"], y["snap"]
+                only_m = sorted(set(a) - set(c))[:3]
+                only_o = sorted(set(c) - set(a))[:3]
+                diff = [k for k in a if k in c and a[k] != c[k]][:3]
+                viol.append({"clause": "tree-differs", "subject": v, "detail": f"after step {i} {x['op']} -> {x['codes']} (after {[o[:2] for o in case['ops'][max(0, i - 3):i]]}): only on memory {only_m}, only on {b} {only_o}, different content {diff}", "step": i})
+                break
+    seen = set()
+    out = []
+    for v in viol:
+        key = (v["clause"], v["subject"])
+        if key not in seen:
+            seen.add(key)
+            out.append(v)
+    res = {
+        "digest": metas["memory"]["digest"] + metas["pathio"]["digest"][:4],
+        "nontrivial": compared >= 4,
+        "vtime": sum(m["vtime"] for m in metas.values()),
+        "events": sum(m["events"] for m in metas.values()),
+        "steps": sum(m["steps"] for m in metas.values()),
+        "outcome": "ok",
+        "counters": {"steps_compared_across_backends": compared, "mode.two_sessions": 1, "probe.command_during_upload_of_other_session": sum(1 for x in ref if x.get("mid_codes"))},
+        "violations": out,
+    }
+    if case.get("want_sample"):
+        res["sample"] = {"case": case, "memory_replies": [(x["op"], x["codes"]) for x in ref][:20]}
+    return res
+
+
 # ----------------------------------------------------------------------- (b) API level
 
 UNIVERSE = ["f", "d", "d/g", "d/sub", "missing", "missing/x", "f/x", "d/sub/deep", "new"]
@@ -304,6 +503,8 @@ def run_api_case(case):
 
 
 def run_case(case):
+    if case.get("mode") == "two":
+        return run_two_case(case)
     return run_api_case(case) if case.get("mode") == "api" else run_ftp_case(case)
 
 
@@ -348,7 +549,7 @@ def gen_case(seed):
 
 
 def selftest_cases(n):
-    return [gen_case(160_000 + i) for i in range(n // 2)] + [{"mode": "api", "seed": 161_000 + i, "ops": gen_api_ops(random.Random(161_000 + i))} for i in range(n - n // 2)]
+    return [gen_case(160_000 + i) for i in range(n // 2)] + [{"mode": "api", "seed": 161_000 + i, "ops": gen_api_ops(random.Random(161_000 + i))} for i in range(n - n // 2)] + [{"mode": "two", "seed": 162_000 + i, "ops": gen_two_ops(random.Random(162_000 + i))} for i in range(n // 3)]
 
 
 def main(argv=None):
@@ -366,7 +567,7 @@ def main(argv=None):
         print("not reproduced")
         return 0
     quick = a.tier == "quick"
-    ev = common.Evidence(PROP, a.tier, a.seed, "exploration", "differential: (ftp) the C05 history generator (all verbs, restart offsets, renames onto / into / through files and directories, transfers to new and existing files; no mutation of the virtual root) replayed with the same seed on MemoryPathIO, PathIO and AsyncPathIO, comparing reply class, transferred bytes / listed names and the tree snapshot after every command; (api) seeded backend-API operation sequences on PathIO vs AsyncPathIO comparing result-or-failure and tree after every operation; non-trivial = at least four steps compared; distinct = distinct run digests")
+    ev = common.Evidence(PROP, a.tier, a.seed, "exploration", "differential: (ftp) the C05 history generator (all verbs, restart offsets, renames onto / into / through files and directories, transfers to new and existing files; no mutation of the virtual root) replayed with the same seed on MemoryPathIO, PathIO and AsyncPathIO, comparing reply class, transferred bytes / listed names and the tree snapshot after every command; (two) sequences of commands issued alternately by two sessions of one account - 'A looks at p, B changes p, A uses p again' triples, and a command of one session handled while an upload of the other (new / overwrite / append / from a restart offset) is in flight - compared the same way; (api) seeded backend-API operation sequences on PathIO vs AsyncPathIO comparing result-or-failure and tree after every operation; non-trivial = at least four steps compared; distinct = distinct run digests")
     rep = common.Reporter(PROP, ev)
     deadline = time.time() + (a.budget or (75 if quick else 1500))
     n = 1500 if quick else 200000
@@ -377,6 +578,7 @@ def main(argv=None):
             for i in range(n):
                 yield gen_case(a.seed * 1_000_000 + i)
                 yield {"mode": "api", "seed": a.seed * 1_000_000 + i, "ops": gen_api_ops(random.Random(a.seed * 1_000_000 + i))}
+                yield {"mode": "two", "seed": a.seed * 1_000_000 + i, "ops": gen_two_ops(random.Random(a.seed * 1_000_000 + i + 5))}
 
         cases = common.with_samples(gen(), 1)
         for case, res in pool.map(run_case, cases, deadline=deadline, chunksize=4):
